@@ -9,54 +9,131 @@ import (
 	"strings"
 )
 
-// vmRunExceptionClause finds, in Core.Run, the clause of the switch over the
-// interrupt kind that handles the catchable (normal-exception) kind.
-func vmRunExceptionClause(c *Ctx) (fn *vmFn, sw *ast.SwitchStmt, cl *ast.CaseClause, kindEnum *Enum, normal *types.Const) {
-	r := vmRoles(c)
-	fn = r.run
-	normal = vmConst(c, "homescript/runtime/value", "Vm_NormalExceptionInterruptKind")
-	kindEnum = c.EnumOf(normal.Type())
-	ast.Inspect(fn.fd.Body, func(n ast.Node) bool {
-		s, ok := n.(*ast.SwitchStmt)
-		if !ok || s.Tag == nil || !types.Identical(fn.info.TypeOf(s.Tag), normal.Type()) {
-			return true
+// vmRunKinds: the paths of one iteration of the VM's run loop (the statements
+// around the call of the instruction dispatcher in Core.Run, helpers spliced
+// in), classified by the interrupt kind they handle. The kind is decided
+// wherever the code decides it — a switch over (*i).Kind(), an if-chain, in
+// Core.Run or in a helper it calls: a path handles kind k when it contains a
+// decision on the kind and none of its decisions contradicts kind == k.
+type vmKindPath struct {
+	p  *vmPath
+	j0 int // index of the first decision on the interrupt kind
+}
+
+type vmRunKinds struct {
+	fn       *vmFn
+	res      *vmWalkResult
+	kindEnum *Enum
+	normal   *types.Const
+	byKind   map[*types.Const][]vmKindPath
+	pos      map[*types.Const]token.Pos
+	how      map[*types.Const]string
+}
+
+var vmRunKindsCache = map[*Ctx]*vmRunKinds{}
+
+func vmIsKindDecision(info *types.Info, e vmEv, kindT types.Type) bool {
+	switch e.K {
+	case evCase:
+		sw, _ := e.Sw.(*ast.SwitchStmt)
+		return !e.Select && sw != nil && sw.Tag != nil && info.TypeOf(sw.Tag) != nil && types.Identical(info.TypeOf(sw.Tag), kindT)
+	case evCond:
+		b, ok := ast.Unparen(e.X).(*ast.BinaryExpr)
+		if !ok || (b.Op != token.EQL && b.Op != token.NEQ) {
+			return false
 		}
-		if cc := vmClauseOf(fn.info, s, normal); cc != nil && sw == nil {
-			sw, cl = s, cc
+		for _, x := range []ast.Expr{b.X, b.Y} {
+			if k := ConstOf(info, ast.Unparen(x)); k != nil && types.Identical(k.Type(), kindT) {
+				return true
+			}
 		}
-		return true
-	})
-	if sw == nil {
-		fatalf("anchor unresolved: Core.Run has no switch over the interrupt kind with a clause for Vm_NormalExceptionInterruptKind")
 	}
-	return
+	return false
+}
+
+func vmRunKindPaths(c *Ctx) *vmRunKinds {
+	if r := vmRunKindsCache[c]; r != nil {
+		return r
+	}
+	roles := vmRoles(c)
+	rk := &vmRunKinds{fn: roles.run, byKind: map[*types.Const][]vmKindPath{}, pos: map[*types.Const]token.Pos{}, how: map[*types.Const]string{}}
+	rk.normal = vmConst(c, "homescript/runtime/value", "Vm_NormalExceptionInterruptKind")
+	rk.kindEnum = c.EnumOf(rk.normal.Type())
+	if rk.kindEnum == nil {
+		fatalf("anchor unresolved: the type of value.Vm_NormalExceptionInterruptKind is not an enum")
+	}
+	rl := vmRunOuter(c)
+	loopBody := rl.outer.Body
+	if rl.inner != nil {
+		loopBody = rl.inner.Body
+	}
+	rk.res = vmWalk(vmWalkOpts{fn: rk.fn, body: loopBody, inline: vmRunInline(c)})
+	info := rk.fn.info
+	any := false
+	for _, k := range rk.kindEnum.Consts {
+		as := &vmAssume{info: info, k: k}
+		for i := range rk.res.paths {
+			p := &rk.res.paths[i]
+			j0 := -1
+			for j, e := range p.ev {
+				if vmIsKindDecision(info, e, rk.normal.Type()) {
+					j0 = j
+					break
+				}
+			}
+			if j0 < 0 || !as.feasible(p) {
+				continue
+			}
+			any = true
+			rk.byKind[k] = append(rk.byKind[k], vmKindPath{p: p, j0: j0})
+			if _, ok := rk.pos[k]; !ok {
+				e := p.ev[j0]
+				rk.pos[k] = e.Pos
+				switch {
+				case e.K == evCase && e.Vals != nil:
+					rk.pos[k], rk.how[k] = vmClausePos(e), "explicit clause"
+				case e.K == evCase:
+					rk.how[k] = "default clause"
+					if sw, ok := e.Sw.(*ast.SwitchStmt); ok {
+						// position of the default clause (the rewritten switch keeps the clause positions)
+						for _, cl := range sw.Body.List {
+							if cc := cl.(*ast.CaseClause); cc.List == nil {
+								rk.pos[k] = cc.Pos()
+							}
+						}
+					}
+				default:
+					rk.how[k] = "if-chain"
+				}
+			}
+		}
+	}
+	if !any {
+		fatalf("anchor unresolved: no path of the run loop of Core.Run decides on the kind of the interrupt returned by the instruction dispatcher")
+	}
+	vmRunKindsCache[c] = rk
+	return rk
 }
 
 // vmRunPopsHandler: does the VM's exception branch itself remove the handler
 // record it dispatches to? (Today it only peeks; the emitted PopTryLabel at
 // the handler entry removes it.)
 func vmRunPopsHandler(c *Ctx) bool {
-	fn, _, cl, _, _ := vmRunExceptionClause(c)
-	hf := vmStructField(fn.pkg, "Core", "ExceptionCatchLabels")
+	rk := vmRunKindPaths(c)
+	hf := vmStructField(rk.fn.pkg, "Core", "ExceptionCatchLabels")
 	if hf == nil {
 		fatalf("anchor unresolved: runtime.Core.ExceptionCatchLabels")
 	}
-	pops := false
-	for _, s := range cl.Body {
-		ast.Inspect(s, func(n ast.Node) bool {
-			if as, ok := n.(*ast.AssignStmt); ok {
-				for i, l := range as.Lhs {
-					if i < len(as.Rhs) {
-						if d, ok := vmSliceWrite(fn.info, l, as.Rhs[i], hf); ok && d < 0 {
-							pops = true
-						}
-					}
+	for _, kp := range rk.byKind[rk.normal] {
+		for _, e := range kp.p.ev[kp.j0:] {
+			if e.K == evAssign && e.Rhs != nil {
+				if d, ok := vmSliceWrite(rk.fn.info, e.Lhs, e.Rhs, hf); ok && d < 0 {
+					return true
 				}
 			}
-			return true
-		})
+		}
 	}
-	return pops
+	return false
 }
 
 type vmPE struct {
@@ -458,7 +535,8 @@ func (pe *vmPE) unitByCase(constName string) []*vmCompUnit {
 	var out []*vmCompUnit
 	for _, u := range pe.w.units {
 		if u.name == "case "+constName {
-			out = append(out, u)
+			// the clause may hand its node to a per-statement method: decide on the spliced paths
+			out = append(out, vmExpandUnit(pe.c, pe.r, pe.w, u))
 		}
 	}
 	return out
@@ -525,7 +603,8 @@ func (pe *vmPE) controlLowering() {
 					bad = append(bad, fmt.Sprintf("the jump target `%s` is not the %s label of a loop record; %s", exprStr(tr[em[0]].args[0]), bc.word, w))
 					continue
 				}
-				if !pe.isInnermostLoop(u.fn, sel.X) {
+				rec, _, _ := vmResolveAt(u.fn.info, p.binds, p.ev, tr[em[0]].evIdx, sel.X)
+				if !pe.isInnermostLoop(u.fn, rec) {
 					bad = append(bad, fmt.Sprintf("the loop record `%s` is not the top of the compiler's loop stack; %s", exprStr(sel.X), w))
 				}
 			}
@@ -584,10 +663,12 @@ func (pe *vmPE) loopRecords() {
 			}
 			// the loop record pushed on this path
 			var lit *ast.CompositeLit
-			for _, e := range p.ev {
+			litAt := 0
+			for j, e := range p.ev {
 				if e.K == evCall && e.Fn != nil && !e.Deferred {
 					if _, ok := pe.r.loops.push[e.Fn]; ok && len(e.Call.Args) == 1 {
 						lit, _ = ast.Unparen(e.Call.Args[0]).(*ast.CompositeLit)
+						litAt = j
 					}
 				}
 			}
@@ -604,10 +685,10 @@ func (pe *vmPE) loopRecords() {
 				}
 				name := strings.ToLower(exprStr(kv.Key))
 				if strings.Contains(name, "break") {
-					lb = vmObjOf(info, kv.Value)
+					lb = vmPathObj(info, p, litAt, kv.Value)
 				}
 				if strings.Contains(name, "continue") {
-					lc = vmObjOf(info, kv.Value)
+					lc = vmPathObj(info, p, litAt, kv.Value)
 				}
 			}
 			if lb == nil || lc == nil {
@@ -740,13 +821,13 @@ func (pe *vmPE) labelsOnce() {
 					}
 				}
 			}
-			for _, e := range p.ev {
+			for j, e := range p.ev {
 				if e.K == evCall && e.Fn != nil && !e.Deferred {
 					if _, ok := pe.r.loops.push[e.Fn]; ok && len(e.Call.Args) == 1 {
 						if lit, ok := ast.Unparen(e.Call.Args[0]).(*ast.CompositeLit); ok {
 							for _, el := range lit.Elts {
 								if kv, ok := el.(*ast.KeyValueExpr); ok {
-									note(refs, vmObjOf(info, kv.Value), e.Pos)
+									note(refs, vmPathObj(info, p, j, kv.Value), e.Pos)
 								}
 							}
 						}
@@ -924,11 +1005,11 @@ func (pe *vmPE) nonLocalExits() {
 	// does the VM trim the handler stack when it leaves a frame / on jumps?
 	vmTrims := func(opName string) bool {
 		k := vmConst(c, "homescript/compiler", opName)
-		cl := vmClauseOf(roles.dispatch.info, roles.dispSw, k)
+		cl, nodes := roles.handlerNodes(k)
 		if cl == nil {
 			return false
 		}
-		for _, s := range cl.Body {
+		for _, s := range nodes {
 			if vmWritesField(roles.dispatch.info, s, handlers) {
 				return true
 			}
